@@ -557,6 +557,18 @@ def mutants(rng, m0, limit=4):
                                             **({"fields": [], "interfaces": []} if find_type(m, tn)["kind"] == "OBJECT" else
                                                {"fields": []} if find_type(m, tn)["kind"] in ("INPUT", "INTERFACE") else
                                                {"values": []} if find_type(m, tn)["kind"] == "ENUM" else {"members": []}))))
+    # root operation types named by a SCHEMA EXTENSION (seed C12-h): an undefined type, at the end and in front of the
+    # other extensions, for the operation kinds the schema does not declare yet (and for one it declares: invalid as well)
+    for okind in ("mutation", "subscription", "query"):
+        for front in (False, True):
+            def ext_root(m, okind=okind, front=front):
+                e = {"schema_ops": {okind: "ZZNopeRoot"}, "dirs": []}
+                if front:
+                    m["exts"].insert(0, e)
+                else:
+                    m["exts"].append(e)
+                return True
+            add("root-types", "`extend schema { %s: <undefined type> }` %s" % (okind, "first" if front else "last"), ext_root)
     # R11
     add("directive-hook-not-awaitable", "a directive implementation with a synchronous hook",
         lambda m: m["dirdefs"][0].update(awaitable=False))
